@@ -395,50 +395,217 @@ def history_obligations(report, guards, tier, patterns=None):
     return obs
 
 
+# ------------------------------------------------------------------------- helper-call histories
+def helper_calls():
+    """(method, argument builder, tag): public helpers with array arguments.  A / B are two independent symbolic
+    argument sets; build(X) -> positional args"""
+    return [
+        ('null_ray_expansion', lambda X: (X['s'], 'out'), 'F,out'),
+        ('null_ray_expansion', lambda X: (X['s'], 'in'), 'F,in'),
+        ('s_covd', lambda X: (X['s'], ''), 'scalar'),
+        ('s_covd', lambda X: (X['v'], 'u'), 'u'),
+        ('s_covd', lambda X: (X['v'], 'd'), 'd'),
+        ('s_covd', lambda X: (X['t'], 'dd'), 'dd'),
+        ('s_div', lambda X: (X['v'], 'u'), 'u'),
+        ('s_div', lambda X: (X['t'], 'dd'), 'dd'),
+        ('s_curl', lambda X: (X['t'], 'dd'), 'dd'),
+        ('Lie_beta', lambda X: (X['s'], ''), 'scalar'),
+        ('Lie_beta', lambda X: (X['v'], 's_u'), 's_u'),
+        ('Lie_beta', lambda X: (X['t'], 's_dd'), 's_dd'),
+        ('s_to_st', lambda X: (X['t'],), 'dd'),
+        ('trace3', lambda X: (X['t'],), ''),
+        ('tracefree3', lambda X: (X['t'],), ''),
+        ('magnitude3', lambda X: (X['v'],), ''),
+        ('norm3', lambda X: (X['v'],), ''),
+        ('vector_inner_product3', lambda X: (X['v'], X['v2']), ''),
+    ]
+
+
+def helper_args(tag):
+    return dict(s=symarray(tag + 's', ()), v=symarray(tag + 'v', (3,)), v2=symarray(tag + 'w', (3,)),
+                t=symarray(tag + 't', (3, 3), symmetric=True))
+
+
+def helper_history_obligations(report, tier, patterns=None):
+    """[helper(A), helper(B)] and [helper(A, variant 1), helper(B, variant 2)] on one instance against helper(B) on a fresh
+    instance, A and B independent symbolic arguments: a helper must not remember anything about an earlier call (state
+    kept outside `data` included).  Also [helper(A), k] for the description keys built on that helper."""
+    obs = []
+    n = 0
+    skipped = []
+    pats = ['tensor'] if tier == 'quick' else ['tensor', 'components']
+    if patterns is not None:
+        pats = [p_ for p_ in pats if p_ in patterns]
+    calls = helper_calls()
+    for pname in pats:
+        inputs, pre = pattern_inputs(pname)
+        c = Ctx(pre=pre, fork=False)
+        with use_ctx(c):
+            A, B = helper_args('hA'), helper_args('hB')
+            # null_ray_expansion normalises the gradient of F: the surfaces F = const must be regular (|dF| > 0)
+            pre = list(pre)
+            r0 = fresh(pname, inputs)
+            for X in (A, B):
+                dF = r0.fd.d3_scalar(X['s'])
+                q = np.einsum('ij..., i..., j... -> ...', r0['gammaup3'], dF, dF)
+                pre.append(tm.lt(tm.ZERO, q[0, 0, 0].t))
+            c.pre = list(pre)
+            c.cache.clear()
+            for (m1, b1, t1) in calls:
+                for (m2, b2, t2) in calls:
+                    if m1 != m2:
+                        continue
+                    if tier == 'quick' and (t1, t2) not in {(t1, t1)} and m1 != 'null_ray_expansion':
+                        continue
+                    name = f"{pname}:{m2}({t2})|after={m1}({t1}) with other arguments"
+                    try:
+                        want = getattr(fresh(pname, inputs), m2)(*b2(B))
+                        rel = fresh(pname, inputs)
+                        getattr(rel, m1)(*b1(A))
+                        got = getattr(rel, m2)(*b2(B))
+                    except Inconclusive as e:
+                        skipped.append((pname, name, repr(e)[:100]))
+                        continue
+                    except Exception as e:  # noqa
+                        skipped.append((pname, name, repr(e)[:100]))
+                        continue
+                    n += 1
+                    o, mismatch = compare(name, got, want, pre, group=f"helper history: {m2}")
+                    if mismatch:
+                        report.record(name, 'sat', group=f"helper history: {m2}", kind='structure')
+                        report.violation(f"{pname}:{m2}:helper", f"{name}: {mismatch}",
+                                         report.write_replay(name, dict(pattern=pname, helper=m2, mismatch=mismatch)))
+                    obs += o
+    report.extra['helper_histories_executed'] = n
+    report.extra['helper_histories_skipped'] = skipped[:20]
+    return obs
+
+
+def helper_replay(pattern, name):
+    """float replay of a helper history named `<pattern>:<m2>(<t2>)|after=<m1>(<t1>) with other arguments`"""
+    import re
+    from aurel.core import AurelCore
+    from symx.harness import grid_fd
+    m = re.match(r"(?P<p>[^:]+):(?P<m2>\w+)\((?P<t2>[^)]*)\)\|after=(?P<m1>\w+)\((?P<t1>[^)]*)\)", name)
+    calls = {(mm, tt): b for mm, b, tt in helper_calls()}
+    fd = grid_fd(9, 0.1, fd_order=4)
+    x, y, z = fd.x, fd.y, fd.z
+
+    def fields(k):
+        s_ = 1.0 + 0.3 * np.sin((1 + k) * x) * np.cos(0.7 * y + k) + 0.1 * z * (1 + k) + 0.5 * k * x * x
+        v_ = np.array([np.sin(x + k) + 0.2 * y, np.cos(y * (1 + 0.5 * k)) + 0.1 * z, 0.3 * x * z + k * 0.2 * np.sin(z)])
+        w_ = np.array([0.2 * np.cos(x) + k, 0.4 * np.sin(z + k), 0.1 * y * y])
+        t_ = np.array([[1.0 + 0.1 * (i + j) * np.sin(x + (i + 1) * y + k) + 0.05 * k * (i * j + 1) * z for j in range(3)] for i in range(3)])
+        t_ = 0.5 * (t_ + np.swapaxes(t_, 0, 1))
+        return dict(s=s_, v=v_, v2=w_, t=t_)
+
+    def mk():
+        rel = AurelCore(fd, verbose=False)
+        g = np.zeros((3, 3) + x.shape)
+        for i in range(3):
+            g[i, i] = 1.5 + 0.1 * (i + 1) * np.sin(x + 0.5 * i) * np.cos(y)
+        g[0, 1] = g[1, 0] = 0.05 * np.cos(z)
+        K = np.zeros((3, 3) + x.shape)
+        for i in range(3):
+            K[i, i] = -0.2 - 0.05 * i + 0.02 * np.cos(y + i)
+        K[0, 2] = K[2, 0] = 0.015 * np.cos(x)
+        rel.data.update(gammadown3=g, Kdown3=K, alpha=1.2 + 0.1 * np.cos(x + y),
+                        betaup3=np.array([0.1 * np.sin(y), 0.05 * np.cos(z), 0.02 * x]))
+        rel.freeze_data()
+        return rel
+    A, B = fields(0), fields(1)
+    b1, b2 = calls[(m['m1'], m['t1'])], calls[(m['m2'], m['t2'])]
+    with np.errstate(all='ignore'):
+        want = getattr(mk(), m['m2'])(*b2(B))
+        rel = mk()
+        getattr(rel, m['m1'])(*b1(A))
+        got = getattr(rel, m['m2'])(*b2(B))
+    d = float(np.max(np.abs(np.asarray(got) - np.asarray(want))))
+    return d
+
+
+LAST_REPLAY = {}
+
+
 def concrete_replay(pattern, key, cached, history, model):
-    """Re-run the two instances with real numpy floats from the model; returns max |difference|."""
+    """Re-run the two instances with real numpy floats; returns max |difference| over the attempts below and leaves the
+    reproducing attempt in LAST_REPLAY.  Attempts: (1) constant fields at the model values, the history as recorded;
+    (2) smooth non-constant fields around the model values (derivative-dependent quantities vanish on constant fields);
+    (3) for histories: the same requests under other cache settings / with one or two further requests, because which
+    entries the real clean-up evicts depends on array sizes that differ between the symbolic and the float run.  Every
+    attempt is a real run of the real code: whichever reproduces is a genuine failing history."""
     from aurel.core import AurelCore
     from symx.harness import grid_fd, eval_terms
     inputs, pre = pattern_inputs(pattern)
-    fd = grid_fd(7, 0.1, fd_order=2)
+    fd = grid_fd(9, 0.1, fd_order=4)
+    LAST_REPLAY.clear()
 
-    def realise(a):
+    def realise(a, mode):
         out = np.zeros(a.shape[:-3] + fd.x.shape)
-        for idx in np.ndindex(*a.shape[:-3]):
+        for n_, idx in enumerate(np.ndindex(*a.shape[:-3])):
             e = a[idx + (0, 0, 0)]
-            out[idx] = float(eval_terms([e.t], model)[0]) if isinstance(e, SymReal) else float(e)
+            base = float(eval_terms([e.t], model)[0]) if isinstance(e, SymReal) else float(e)
+            out[idx] = base
+            if mode == 'smooth':
+                out[idx] = base + 0.02 * (1 + abs(base)) * (np.sin((1 + 0.3 * n_) * fd.x + 0.2 * n_) * np.cos((0.5 + 0.2 * n_) * fd.y)
+                                                            + 0.5 * np.sin(0.7 * fd.z + 0.4 * n_))
         return out
 
-    def mk(**kw):
-        rel = AurelCore(fd, verbose=False, vacuum=(pattern == 'tensor-vacuum'), **kw)
-        for k, v in inputs.items():
-            rel.data[k] = realise(v)
-        rel.freeze_data()
-        return rel
-    with np.errstate(all='ignore'):
-        want = mk()[key]
-        if history:
-            if history[-1] == '@default-cache':
-                rel = mk()
-                history = history[:-1]
+    def worst_of(got, want):
+        worst = 0.0
+        for (pa, a), (pb, b) in zip(flatten(got), flatten(want)):
+            if isinstance(a, (float, np.floating, complex, np.complexfloating)) and isinstance(b, (float, np.floating, complex, np.complexfloating)):
+                if np.isnan(a) and np.isnan(b):
+                    continue
+                d = abs(a - b)
+                worst = max(worst, float(d) if np.isfinite(d) else 1e300)
+        return worst
+
+    best = 0.0
+    first_error = None
+    for mode in ('const', 'smooth'):
+        def mk(**kw):
+            rel = AurelCore(fd, verbose=False, vacuum=(pattern == 'tensor-vacuum'), **kw)
+            for k, v in inputs.items():
+                rel.data[k] = realise(v, mode)
+            rel.freeze_data()
+            return rel
+        with np.errstate(all='ignore'):
+            want = mk()[key]
+            attempts = []
+            if history and history[-1] == '@default-cache':
+                attempts.append((dict(), history[:-1]))
+            elif history:
+                for kw in (dict(clear_cache_every_nbr_calc=1, memory_threshold_inGB=1e-9), dict(clear_cache_every_nbr_calc=1),
+                           dict(clear_cache_every_nbr_calc=2), dict(clear_cache_every_nbr_calc=3)):
+                    for extra in ([], ['Kdown3'], ['Kdown3', 'Ktrace'], ['betaup3'], ['gammadet', 'Ktrace', 'gammaup3']):
+                        attempts.append((kw, list(history) + [e_ for e_ in extra if e_ != key]))
             else:
-                rel = mk(clear_cache_every_nbr_calc=1, memory_threshold_inGB=1e-9)
-            for h in history:
-                rel[h]
-            got = rel[key]
-        else:
-            rel = mk()
-            for g in cached:
-                rel.data[g] = mk()[g]
-            got = rel[key]
-    worst = 0.0
-    for (pa, a), (pb, b) in zip(flatten(got), flatten(want)):
-        if isinstance(a, (float, np.floating, complex, np.complexfloating)) and isinstance(b, (float, np.floating, complex, np.complexfloating)):
-            if np.isnan(a) and np.isnan(b):
-                continue
-            d = abs(a - b)
-            worst = max(worst, float(d) if np.isfinite(d) else 1e300)
-    return worst
+                attempts.append((None, []))
+            for kw, hist in attempts:
+                try:
+                    if kw is None:
+                        rel = mk()
+                        for g in cached:
+                            rel.data[g] = mk()[g]
+                    else:
+                        rel = mk(**kw)
+                        for h in hist:
+                            rel[h]
+                    got = rel[key]
+                except Exception as e:  # noqa
+                    if first_error is None:
+                        first_error = e
+                    continue
+                w = worst_of(got, want)
+                if w > best:
+                    best = w
+                    LAST_REPLAY.update(mode=mode, cache_settings=kw, history=hist, max_abs_difference=w)
+                if w > 1e-9:
+                    return w
+    if first_error is not None and best <= 1e-9:
+        raise first_error
+    return best
 
 
 class _Rec:
@@ -503,10 +670,12 @@ def run_pattern(args):
             with FuncTrace() as ft:
                 obs = guard_step_obligations(rec, guards, tier, [pname])
                 obs += history_obligations(rec, guards, tier, [pname])
+                obs += helper_history_obligations(rec, tier, [pname])
             seen = ft.seen
         else:
             obs = guard_step_obligations(rec, guards, tier, [pname])
             obs += history_obligations(rec, guards, tier, [pname])
+            obs += helper_history_obligations(rec, tier, [pname])
         envs = [{f'g{i}{j}': F(v) for (i, j), v in gr.DESIGNED_GAMMA[w].items()} for w in (0, 1)]
         rungs = [dict(name='full', envs=[None], timeout=30 if tier == 'quick' else 200),
                  dict(name='slices:metric-value-fixed', envs=envs, timeout=200 if tier == 'quick' else 600)]
@@ -531,6 +700,8 @@ def main(report, tier, seed, workers, calibrate=False):
                          patterns=PATTERNS, guard_assignments='all subsets of the guard keys of each body (quick: sizes '
                          '0, 1 and all for bodies with more than two guard keys)',
                          histories='[h, k] and [h, 3 fillers, k] under clear_cache_every_nbr_calc=1, memory_threshold 1 byte',
+                         helper_histories='[helper(A), helper(B)] for every public helper with array arguments (two independent symbolic '
+                         'argument sets; null_ray_expansion also across directions) against helper(B) on a fresh instance',
                          outside=['float round-off between algebraically equal branches', 'user writes into rel.data',
                                   'continuum-class branch pairs (st_Ricci_down4 from T vs contraction; st_Weyl_down4 '
                                   'Riemann vs E/B branch) - discharged against the common oracle in C04 / C10',
@@ -559,6 +730,9 @@ def main(report, tier, seed, workers, calibrate=False):
             solver.STATS.by_backend[k] = solver.STATS.by_backend.get(k, 0) + v
         n_exec += res['extra'].get('guard_states_executed', 0)
         n_hist += res['extra'].get('histories_executed', 0)
+        report.extra['helper_histories_executed'] = report.extra.get('helper_histories_executed', 0) + res['extra'].get('helper_histories_executed', 0)
+        if res['extra'].get('helper_histories_skipped'):
+            report.extra.setdefault('helper_histories_skipped', []).extend(res['extra']['helper_histories_skipped'])
         skipped += res['extra'].get('guard_states_skipped', []) + res['extra'].get('histories_skipped', [])
         crashes += res['extra'].get('_crashes', [])
         report.obs += res['records']
@@ -577,6 +751,21 @@ def main(report, tier, seed, workers, calibrate=False):
                 if vkey in seen_keys:
                     continue
                 cached, history = [], []
+                if 'with other arguments' in how:
+                    try:
+                        worst = helper_replay(pattern, o['name'])
+                    except Exception as e:  # noqa
+                        report.harness_errors.append(f"replay of {o['name']} raised {e!r}")
+                        continue
+                    if worst > 1e-9:
+                        seen_keys.add(vkey)
+                        path = report.write_replay(vkey + ':helper', dict(pattern=pattern, key=key, helper_history=head, model=model,
+                                                                          max_abs_difference=worst))
+                        report.violation(vkey + ':helper', f"{head}: the helper's result depends on an earlier call with other arguments "
+                                         f"(differs from a fresh instance by {worst:.3g})", path)
+                    else:
+                        report.harness_errors.append(f"model for {o['name']} does not reproduce on floats (diff {worst})")
+                    continue
                 if how.startswith('cached='):
                     cached = [x for x in how[len('cached='):].split('+') if x != 'nothing']
                 else:
@@ -590,7 +779,7 @@ def main(report, tier, seed, workers, calibrate=False):
                 if worst > 1e-9:
                     seen_keys.add(vkey)
                     path = report.write_replay(vkey, dict(pattern=pattern, key=key, cached=cached, history=history,
-                                                          model=model, max_abs_difference=worst))
+                                                          model=model, max_abs_difference=worst, reproduced_by=dict(LAST_REPLAY)))
                     report.violation(vkey, f"{head}: value after this history differs from the fresh-instance value "
                                      f"by {worst:.3g}", path)
                 else:
